@@ -51,6 +51,16 @@ class _Methods:
         return f"{type(self).__name__}#{getattr(self, '_idx', '?')}"
 
 
+class _Sized:
+    """case['sized_objs']: the generated classes are SIZED (like a container class): an object whose field a is 0 is a
+    FALSY object.  The library must treat domain objects, attribute values that are objects and results as values, never
+    as truth values."""
+
+    def __len__(self):
+        a = getattr(self, 'a', None)
+        return a if type(a) is int and a >= 0 else 1
+
+
 # ---- user predicates (mirrored in PyPrim.lean: fnP) -------------------------------------------
 
 def _is_big(o):
@@ -125,12 +135,13 @@ class Built:
         # case['value_eq']: the generated dataclasses compare by VALUE (dataclass default eq=True): two distinct objects
         # with equal fields are == but remain two objects (two solutions) for the library
         veq = bool(self.case.get('value_eq'))
+        sized = (_Sized,) if self.case.get('sized_objs') else ()
         for name, base in self.case['classes']:
             if base == '-':
                 # like the library's own test datasets: a base with a KEYWORD-ONLY field, declared before the
                 # regular fields of the class (dataclasses.fields order != __init__ parameter order)
                 cls = make_dataclass(name, [(f, object, field(default=None)) for f in FIELDS],
-                                     bases=(_KwBase, _Methods), eq=veq, repr=False)
+                                     bases=(_KwBase, _Methods) + sized, eq=veq, repr=False)
             else:
                 cls = dataclass(eq=veq, repr=False)(type(name, (self.classes[base],), {}))
             # a subclass may be left UNDECORATED: it inherits the patched constructor of its @symbol ancestor
@@ -228,6 +239,9 @@ class Built:
             return [self.decode(x) for x in v[1:]]
         if k == 't':
             return tuple(self.decode(x) for x in v[1:])
+        if k == 'dm':
+            # a dict {0: v0, 1: v1, ...} (only ever indexed; the model sees the tuple of its values)
+            return {i: self.decode(x) for i, x in enumerate(v[1:])}
         raise ValueError(v)
 
     def encode(self, x):
@@ -511,6 +525,15 @@ class Built:
             return ('none',)
 
 
+def suspended(case):
+    """Half of the abandoned evaluations (case['pre_take']) are left SUSPENDED instead of closed; decided by the case id
+    (no random choice, so every other choice of the generators stays what it was); case['pre_suspend'] overrides."""
+    if case.get('pre_suspend') is not None:
+        return bool(case['pre_suspend'])
+    import zlib
+    return (zlib.crc32(str(case.get('id')).encode()) + int(case.get('pre_take') or 0)) % 2 == 0
+
+
 def reset_library_state():
     """Drop the process-global state the library keeps between cases."""
     for c in list(Variable._cache_.values()):
@@ -522,6 +545,7 @@ def run_case(case, caching=True, evaluations=1, tree_out=None, ambient=None):
     """Build the case on the implementation and evaluate it; returns a list of outcomes."""
     reset_library_state()
     (enable_caching if caching else disable_caching)()
+    held = []
     try:
         b = Built(case)
         if case.get('share_terms'):
@@ -539,7 +563,10 @@ def run_case(case, caching=True, evaluations=1, tree_out=None, ambient=None):
         # results are pulled inside a block of that mode
         split = isinstance(ambient, str) and ambient.startswith('split:')
         inner = ambient.split(':', 1)[1] if split else ambient
-        ctx = {None: contextlib.nullcontext, 'query': symbolic_mode, 'rule': rule_mode}[inner]
+        # 'query+q' / 'rule+q': the block is opened WITH the query itself as its context (symbolic_mode(q) / rule_mode(q),
+        # the block in which a rule's conclusions are added) and evaluate() is called inside it
+        ctx = {None: contextlib.nullcontext, 'query': symbolic_mode, 'rule': rule_mode,
+               'query+q': lambda: symbolic_mode(b.q), 'rule+q': lambda: rule_mode(b.q)}[inner]
         if split and case['quant'] != 'the':
             for _ in range(evaluations):
                 it = iter(b.q.evaluate())
@@ -562,7 +589,12 @@ def run_case(case, caching=True, evaluations=1, tree_out=None, ambient=None):
                         next(it)
                 except StopIteration:
                     outs.append(('pre_completed',))     # it ran to the end after all: stripped by the caller
-                it.close()
+                if suspended(case):
+                    # the abandoned iterator is NOT closed: it stays suspended (a live reference) while the evaluations
+                    # that follow run - `first = next(it)` with `it` still in scope
+                    held.append(it)
+                else:
+                    it.close()
         for _ in range(evaluations):
             with ctx():
                 if case['quant'] == 'the':
@@ -577,5 +609,7 @@ def run_case(case, caching=True, evaluations=1, tree_out=None, ambient=None):
     except Exception as e:  # reported, never swallowed silently
         return [('exc', type(e).__name__, str(e)[:200])]
     finally:
+        for it in held:
+            it.close()
         enable_caching()
         reset_library_state()
